@@ -139,7 +139,10 @@ def cases(tier, seed):
                         for compute in (True, False):
                             if tier == "quick" and not compute and power not in (1, 3):
                                 continue
-                            out.append(dict(family="single", shape=[n, p], py=0, kbase=kbase, spec=spec, k=k, power=power, compute=compute, alpha=None, use_pca=False, n_pca=None, **cfg))
+                            out.append(dict(family="single", shape=[n, p], py=0, kbase=kbase, spec=spec, k=k, power=power, compute=compute, alpha=None, use_pca=False, n_pca=None, reuse=False, **cfg))
+                            if compute and (tier == "thorough" or power in (1, 2)):
+                                # non-initial state: the same rotator object has been fitted before
+                                out.append(dict(family="single", shape=[n, p], py=0, kbase=kbase, spec=spec, k=k, power=power, compute=compute, alpha=None, use_pca=False, n_pca=None, reuse=True, **cfg))
     # ---- cross-set family
     for cfg in _cross_configs(tier):
         pairs = [(12, 6, 4)]
@@ -156,7 +159,9 @@ def cases(tier, seed):
                         for compute in (True, False):
                             if tier == "quick" and not compute and power not in (1, 3):
                                 continue
-                            out.append(dict(family="cross", shape=[n, px], py=py, kbase=kbase, spec=spec, k=k, power=power, compute=compute, padding=None, **cfg))
+                            out.append(dict(family="cross", shape=[n, px], py=py, kbase=kbase, spec=spec, k=k, power=power, compute=compute, padding=None, reuse=False, **cfg))
+                            if compute and power == 1 and (tier == "thorough" or k == kbase):
+                                out.append(dict(family="cross", shape=[n, px], py=py, kbase=kbase, spec=spec, k=k, power=power, compute=compute, padding=None, reuse=True, **cfg))
     out.sort(key=lambda c: (c["family"] != "single", c["k"], c["power"], not c["compute"]))
     return out
 
@@ -294,6 +299,8 @@ def _run_single(case, seed):
     rname = SINGLE_ROT[case["model"]]
     rot = getattr(xe.single, rname)(n_modes=k, power=power, compute=case["compute"])
     try:
+        if case.get("reuse"):
+            rot.fit(base)  # a first fit of the same rotator object; the judged fit below must not depend on it
         rot.fit(base)
         if not case["compute"]:
             rot.compute()
@@ -302,7 +309,7 @@ def _run_single(case, seed):
             return _not_converged(case, rname, e, np.iscomplexobj(base.data["components"].values))
         raise
 
-    feats = dict(power1=(power == 1), compute=case["compute"])
+    feats = dict(power1=(power == 1), compute=case["compute"], reused_rotator=bool(case.get("reuse")))
     V = []
 
     def bad(check, msg, **extra):
@@ -400,6 +407,8 @@ def _run_cross(case, seed):
     rname = CROSS_ROT[case["model"]]
     rot = getattr(xe.cross, rname)(n_modes=k, power=power, compute=case["compute"])
     try:
+        if case.get("reuse"):
+            rot.fit(base)  # a first fit of the same rotator object; the judged fit below must not depend on it
         rot.fit(base)
         if not case["compute"]:
             rot.compute()
@@ -409,7 +418,7 @@ def _run_cross(case, seed):
         raise
 
     a = case["alpha"] if case["alpha"] is not None else [1.0, 1.0]
-    feats = dict(power1=(power == 1), compute=case["compute"], alpha_lt_1=bool(min(a) < 1.0), use_pca=bool(case["use_pca"]))
+    feats = dict(power1=(power == 1), compute=case["compute"], alpha_lt_1=bool(min(a) < 1.0), use_pca=bool(case["use_pca"]), reused_rotator=bool(case.get("reuse")))
     V = []
 
     def bad(check, msg, **extra):
